@@ -340,6 +340,12 @@ class Peer:
         self._delay.reset()
 
     def reconfigure(self, restart_neighbor: 'Neighbor' | None = None) -> None:
+        if restart_neighbor and not self._restart:
+            # removed by the previous reload (stop() cleared _restart, the task has not ended yet) and put back by
+            # this one: it is the same neighbor for Reactor.reload(), but this peer was about to end -- nothing
+            # served the neighbor any more until yet another reload. Start again with the new definition.
+            self.reestablish(restart_neighbor)
+            return
         # we want to update the route which were in the configuration file
         if restart_neighbor and self._neighbor is not None and self.neighbor.rib:
             # a reload is still waiting for its turn of the peer loop (two reloads in a row): apply its difference
